@@ -1267,8 +1267,9 @@ func (s *sharedEntryAttributes) validateMandatoryWithKeys(ctx context.Context, l
 				exists, err = s.treeContext.cacheClient.IntendedPathExists(ctx, append(s.Path(), attribute))
 			}
 			owner := "unknown"
-			if s.leafVariants.Length() > 0 {
-				s.leafVariants.GetHighestPrecedence(false, true).Owner()
+			// no entry remains when the value of a presence container is given up while a child keeps the container
+			if le := s.leafVariants.GetHighestPrecedence(false, true); le != nil {
+				owner = le.Owner()
 			}
 			if err != nil {
 				resultChan <- types.NewValidationResultEntry(owner, fmt.Errorf("error validating mandatory childs %s: %v", s.Path(), err), types.ValidationResultEntryTypeError)
